@@ -15,12 +15,29 @@ HEADERS = [
     ("one", ["Summary line of the thing."]),
     ("two", ["Summary line of the thing.", "", "Longer description that explains", "the thing over two lines."]),
     ("bullets", ["Summary line of the thing.", "", "It does:", "- first item", "- second item"]),
+    ("colon_end", ["Summary line of the thing.", "", "The options are as follows:"]),
 ]
 SECTIONS = {
     "rest": [":param alpha: the alpha", ":type alpha: ```int```", "", ":param beta: the beta. Defaults to 5", ":type beta: ```int```", "", ":return: the result", ":rtype: ```str```"],
     "google": ["Args:", "  alpha (int): the alpha", "  beta (int): the beta. Defaults to 5", "", "Returns:", "  str: the result"],
     "numpydoc": ["Parameters", "----------", "alpha : int", "    the alpha", "beta : int", "    the beta. Defaults to 5", "", "Returns", "-------", "str", "    the result"],
 }
+SECTION_VARIANTS = ["full", "params_only", "return_only"]
+
+
+def section_lines(style, variant="full"):
+    """the generated section restricted to its parameter part or its return part"""
+    lines = SECTIONS[style]
+    if variant == "full":
+        return lines
+    cut = {"rest": ":return:", "google": "Returns:", "numpydoc": "Returns"}[style]
+    i = next(k for k, l in enumerate(lines) if l.startswith(cut))
+    part = lines[:i] if variant == "params_only" else lines[i:]
+    while part and part[-1] == "":
+        part = part[:-1]
+    return part
+
+
 FOOTERS = [
     ("none", []),
     ("notes", ["", "Notes about the usage", "that span two lines."]),
@@ -34,10 +51,10 @@ TRAILING = ["none", "nl", "nl_indent"]
 STYLES = ["rest", "google", "numpydoc"]
 
 
-def build(hk, style, fk, indent, leading, sep, trailing):
+def build(hk, style, fk, indent, leading, sep, trailing, variant="full"):
     header = dict(HEADERS)[hk]
     footer = dict(FOOTERS)[fk]
-    lines = list(header) + [""] * (sep - 1) + SECTIONS[style] + footer
+    lines = list(header) + [""] * (sep - 1) + section_lines(style, variant) + footer
     ind = " " * indent
     text = "\n".join((ind + l) if l else l for l in lines)
     if leading:
@@ -50,8 +67,8 @@ def build(hk, style, fk, indent, leading, sep, trailing):
 
 
 def space():
-    for hk, style, fk, indent, leading, sep, trailing in itertools.product([h[0] for h in HEADERS], STYLES, [f[0] for f in FOOTERS], INDENTS, LEADING, SEPARATORS, TRAILING):
-        yield dict(hk=hk, style=style, fk=fk, indent=indent, leading=leading, sep=sep, trailing=trailing)
+    for variant, hk, style, fk, indent, leading, sep, trailing in itertools.product(SECTION_VARIANTS, [h[0] for h in HEADERS], STYLES, [f[0] for f in FOOTERS], INDENTS, LEADING, SEPARATORS, TRAILING):
+        yield dict(hk=hk, style=style, fk=fk, indent=indent, leading=leading, sep=sep, trailing=trailing, variant=variant)
 
 
 def cases(tier, seed):
@@ -81,7 +98,7 @@ def expected_bounds(key, doc):
     """(index where the section starts, index where it ends) at line granularity: the section starts at the beginning of its first line and
     ends after the newline of its last line (or at the end of the text)"""
     ind = " " * key["indent"]
-    sec = SECTIONS[key["style"]]
+    sec = section_lines(key["style"], key.get("variant", "full"))
     first = (ind + sec[0])
     last = (ind + sec[-1])
     start = doc.index(first)
@@ -115,8 +132,8 @@ def run(case):
     import cdd.shared.docstring_utils
     from cdd.shared.source_transformer import to_code
 
-    doc = build(case["hk"], case["style"], case["fk"], case["indent"], case["leading"], case["sep"], case["trailing"])
-    ctx = dict(check="prose", style=case["style"], indent=case["indent"], header=case["hk"], footer=case["fk"])
+    doc = build(case["hk"], case["style"], case["fk"], case["indent"], case["leading"], case["sep"], case["trailing"], case.get("variant", "full"))
+    ctx = dict(check="prose", style=case["style"], indent=case["indent"], header=case["hk"], footer=case["fk"], section=case.get("variant", "full"))
     viol, transitions = [], 0
 
     def v(clause, expected, observed, **extra):
@@ -129,9 +146,11 @@ def run(case):
     transitions += 1
     try:
         h, a, f = cdd.shared.docstring_utils.parse_docstring_into_header_args_footer(doc, doc)
+        none_parts = ",".join(n for n, x in (("header", h), ("section", a), ("footer", f)) if x is None)
+        h, a, f = h or "", a or "", f or ""  # a part that is reported as None holds no text
         kind = classify_split(doc, h, a, f, case["indent"])
         if kind is not None:
-            v("split_not_exact", doc, h + a + f, kind=kind, leading=case["leading"], sep=case["sep"], trailing=case["trailing"])
+            v("split_not_exact", doc, h + a + f, kind=kind, leading=case["leading"], sep=case["sep"], trailing=case["trailing"], none_parts=none_parts or "none")
         # the parts must be what their names say.  Expected boundaries are known by construction; the observed ones are compared with them
         # exactly: signed number of non-blank lines between them and whether the observed boundary falls in the middle of a line
         ind = " " * case["indent"]
@@ -178,7 +197,7 @@ def run(case):
             v("header_line_lost", missing, out, via="docstring", target=target, same_style=target == case["style"])
     # through a function
     if case["indent"] == 4:
-        src = 'def thing(alpha, beta=5):\n    """%s"""\n    return str(alpha + beta)\n' % doc
+        src = 'def thing(alpha=1, beta=5):\n    """%s"""\n    return str(alpha + beta)\n' % doc
         try:
             fn = ast.parse(src).body[0]
         except SyntaxError:
